@@ -967,6 +967,60 @@ int main(int argc, char **argv)
     }
     return 0;
   }
-  std::cerr << "usage: c02_ops sets | run <seed> <first> <last> | replay <seed> [reps] < requests | big\n";
+  if (mode == "weights")
+  {
+    // degenerate symbol sets: does the library's own validity check reject what random
+    // construction cannot cope with (roulette needs a positive total weight)?
+    struct wcase { const char *name; std::function<void(problem &)> build; };
+    const std::vector<wcase> cases{
+      {"terminals-all-zero-weight", [](problem &p) { symbol_factory f;
+         p.sset.insert(std::make_unique<real::add>(cvect{0}));
+         p.sset.insert(f.make("1.0", {0}), 0.0);
+         p.sset.insert(f.make("2.0", {0}), 0.0); }},
+      {"functions-all-zero-weight", [](problem &p) { symbol_factory f;
+         p.sset.insert(std::make_unique<real::add>(cvect{0}), 0.0);
+         p.sset.insert(f.make("1.0", {0})); }},
+      {"category-gap", [](problem &p) { symbol_factory f;
+         p.sset.insert(f.make("1.0", {0}));
+         p.sset.insert(std::make_unique<real::add>(cvect{0}));
+         p.sset.insert(f.make("apple", {2})); }},
+      {"category-without-terminals", [](problem &p) { symbol_factory f;
+         p.sset.insert(f.make("1.0", {0}));
+         p.sset.insert(std::make_unique<real::add>(cvect{0}));
+         p.sset.insert(std::make_unique<real::gt>(cvect{0, 1})); }},   // (r, r) -> category 1, no terminal there
+      {"one-zero-weight-terminal-among-others", [](problem &p) { symbol_factory f;
+         p.sset.insert(f.make("1.0", {0}), 0.0);
+         p.sset.insert(f.make("2.0", {0}));
+         p.sset.insert(std::make_unique<real::add>(cvect{0})); }}};
+    const std::size_t only = argc > 2 ? std::stoul(argv[2]) : cases.size();   // one case per process
+    for (std::size_t ci = 0; ci < cases.size(); ++ci)
+    {
+      if (only != cases.size() && ci != only) continue;
+      const auto &c = cases[ci];
+      auto si = std::make_unique<setinfo>();
+      si->prob.env.init();
+      si->prob.env.mep.code_length = 8;
+      si->prob.env.mep.patch_length = 2;
+      c.build(si->prob);
+      for (opcode_t o = 0; o < 100000 && si->syms.size() < 64; ++o)
+        if (const symbol *s = si->prob.sset.decode(o)) si->syms.push_back(s);
+      const bool accepted = si->prob.sset.is_valid() && si->prob.is_valid();
+      std::cout << "W " << c.name << " accepted=" << accepted << std::flush;
+      bool wf = true;
+      std::string why = "-";
+      if (accepted)
+        for (unsigned k = 0; k < 200 && wf; ++k)
+        {
+          vita::random::seed(k + 1);
+          const i_mep x(si->prob);
+          oracle o{*si};
+          wf = o.wf(x);
+          if (!o.why.empty()) why = o.why;
+        }
+      std::cout << " wf=" << wf << " why=" << why << "\n";
+    }
+    return 0;
+  }
+  std::cerr << "usage: c02_ops sets | run <seed> <first> <last> | replay <seed> [reps] < requests | big | weights\n";
   return 2;
 }
